@@ -752,7 +752,8 @@ def block_container_layout(context, box, bottom_space, skip_stack,
         if abort:
             page = child.page_values()[0]
             remove_placeholders(
-                context, box.children[skip:], absolute_boxes, fixed_boxes)
+                context, [*new_children, *box.children[skip:]],
+                absolute_boxes, fixed_boxes)
             for footnote in new_footnotes:
                 context.unlayout_footnote(footnote)
             return (
